@@ -30,7 +30,32 @@ static std::ostream& operator<<(std::ostream& o, const Fix2& f)
     return o << std::fixed << std::setprecision(2) << f.v;
 }
 
-using V = std::variant<int, long long, char, double, std::string, const char*, Hex, Fix2>;
+// a fixed-size character buffer that is only partly filled; it is handed over as the array it is
+struct CBuf
+{
+    char buf[24];
+    const char (&ref() const)[24]
+    {
+        return buf;
+    }
+};
+static std::ostream& operator<<(std::ostream& o, const CBuf& b)
+{
+    return o << b.buf;
+}
+
+using V = std::variant<int, long long, char, double, std::string, const char*, Hex, Fix2, CBuf>;
+
+// what is actually passed on for an argument: the array itself for a CBuf, the value otherwise
+template <typename T>
+static T& as_passed(T& x)
+{
+    return x;
+}
+static const char (&as_passed(CBuf& x))[24]
+{
+    return x.ref();
+}
 
 struct Arg
 {
@@ -68,6 +93,13 @@ static std::vector<std::unique_ptr<Arg>> parse_args(const std::string& field)
         case 'd':
             a->v = std::stod(text);
             break;
+        case 'a':
+        {
+            CBuf b{};
+            text.copy(b.buf, sizeof(b.buf) - 1);
+            a->v = b;
+            break;
+        }
         case 'h':
             a->v = Hex{ static_cast<unsigned>(std::stoul(text, nullptr, 16)) };
             break;
@@ -145,7 +177,7 @@ static std::string do_str(const std::string& api, const std::string& fmt,
         // the text is rendered once before the last argument is added (to the same object, or to a copy of it):
         // the final rendering has to be that of all the arguments
         for (std::size_t i = 0; i + 1 < args.size(); i++)
-            std::visit([&](auto&& x) { f % x; }, args[i]->v);
+            std::visit([&](auto&& x) { f % as_passed(x); }, args[i]->v);
         try
         {
             (void)f.str();
@@ -157,7 +189,7 @@ static std::string do_str(const std::string& api, const std::string& fmt,
         }
         if (api == "pct+more")
         {
-            std::visit([&](auto&& x) { f % x; }, args.back()->v);
+            std::visit([&](auto&& x) { f % as_passed(x); }, args.back()->v);
             return render("pct", f);
         }
         if (api == "fork+more")
@@ -174,18 +206,18 @@ static std::string do_str(const std::string& api, const std::string& fmt,
             {
             }
             F b = f;
-            std::visit([&](auto&& x) { b.args(x); }, args.back()->v);
+            std::visit([&](auto&& x) { b.args(as_passed(x)); }, args.back()->v);
             return render("pct", b);
         }
         F g = f;
-        std::visit([&](auto&& x) { g % x; }, args.back()->v);
+        std::visit([&](auto&& x) { g % as_passed(x); }, args.back()->v);
         return render("pct", g);
     }
     bool variadic = api.rfind("args", 0) == 0;
     if (!variadic || args.size() > 3)
     {
         for (auto& a : args)
-            std::visit([&](auto&& x) { f % x; }, a->v);
+            std::visit([&](auto&& x) { f % as_passed(x); }, a->v);
         if (variadic)
             f.args();
     }
@@ -214,13 +246,13 @@ static std::string do_str(const std::string& api, const std::string& fmt,
             f.args();
             break;
         case 1:
-            std::visit([&](auto&& x) { f.args(x); }, args[0]->v);
+            std::visit([&](auto&& x) { f.args(as_passed(x)); }, args[0]->v);
             break;
         case 2:
-            std::visit([&](auto&& x, auto&& y) { f.args(x, y); }, args[0]->v, args[1]->v);
+            std::visit([&](auto&& x, auto&& y) { f.args(as_passed(x), as_passed(y)); }, args[0]->v, args[1]->v);
             break;
         case 3:
-            std::visit([&](auto&& x, auto&& y, auto&& z) { f.args(x, y, z); }, args[0]->v,
+            std::visit([&](auto&& x, auto&& y, auto&& z) { f.args(as_passed(x), as_passed(y), as_passed(z)); }, args[0]->v,
                        args[1]->v, args[2]->v);
             break;
         }
